@@ -60,7 +60,7 @@ PROPS = {
     "C10": ["BRW-1", "BRW-2", "BRW-3", "TS-2", "TS-3", "SYM-3"],
     "C11": ["UNW-1", "TS-2", "TS-6", "BRW-1", "GUARD-1", "SYM-3"],
     "C12": ["KILL-1", "EFF-2", "TS-1", "TS-9", "SYM-3"],
-    "C14": ["GATE-2", "GATE-3", "SYM-2", "SYM-4"],
+    "C14": ["GATE-2", "GATE-3", "SYM-2", "SYM-4", "API-1"],
     "C15": ["CG-1", "GATE-1", "GATE-9", "ITER-5"],
     "C16": ["TS-7", "TS-9", "GATE-1", "EFF-2"],
 }
@@ -70,6 +70,8 @@ API_FILTER = {
     # an object whose value is taken by a handle-consuming API gives up its implicit weak (else the allocation leaks)
     "C04": ("implicit-weak-kept",),
     "C05": ("upgrade", "Weak::", "downgrade"),
+    # the O(1) handle operations stay counter operations: no allocation, no link table
+    "C14": (":allocates", ":borrows-a-link-table"),
     # identity and count clauses: raw-pointer round trips name the same allocation, ptr_eq is pointer equality,
     # increment/decrement_strong_count move the count by exactly one, up/downgrade stay on the same object
     "C06": ("from_raw", "not-inverse", "not-value-address", "not-pointer-equality", "handle-not-forgotten", "increment_strong_count", "decrement_strong_count", "other-object"),
